@@ -229,7 +229,9 @@ def PROOFS():
                                             K + "Treatment.code_without_intercept"]),
             ("vf.contracts.utils_c", utils_c.FUNCTIONS),
             ("vf.contracts.terms_c", ["formulae.terms.terms.GroupSpecificTerm.eval_new_data"]),
-            ("vf.contracts.variable_c", ["formulae.terms.variable.Variable.labels", "formulae.terms.call.Call.labels"] + ["formulae.terms.variable.Variable.eval_categoric", "formulae.terms.call.Call.eval_categoric"])]
+            ("vf.contracts.variable_c", ["formulae.terms.variable.Variable.labels", "formulae.terms.call.Call.labels"] + ["formulae.terms.variable.Variable.eval_categoric", "formulae.terms.call.Call.eval_categoric"]),
+            # property lemmas: label j of a categorical factor names exactly the level whose indicator column j is; two-way interaction
+            ("vf.contracts.lemmas_c", ["vf.proplemmas.c04.main_effect", "vf.proplemmas.c04.main_effect#call", "vf.proplemmas.c04.pair_interaction"])]
 
 
 def run(report, findings):
